@@ -18,7 +18,7 @@ TEXT = {
                   "C04.round); previousTransitions := currentTransitions on every path out of processRequest and initialEnter; previousTransitions and "
                   "transitionTargets are cleared in finalExit, reset, load, replayTransitions",
     "C09.change-predicate": "RegistryT::operator!=(BackUp) compares every registry field that makes up the *pending configuration* and that applyRequest "
-                            "may write (compoRequested, orthoRequested) and every field backup() saves: a request whose only effect lies outside the test "
+                            "may write (compoRequested, orthoRequested) and every field backup() saves unless every writer of it reachable from applyRequest also writes a compared field: a request whose only effect lies outside the test "
                             "(e.g. a request into a leaf directly below an orthogonal root sets only orthogonal bits) would be applied but neither guarded nor "
                             "recorded.  compoRemains (how an already requested change is applied) is decided under C04.backup-covers, not here",
     "C09.pin": "transitionTargets is written only by {Const,}ControlT::pinLastTransition (under !isActive(stateId) and index != INVALID) and cleared by "
@@ -78,11 +78,35 @@ def check_change_predicate(ctx, F, E):
                     for x in walk(bb["body"]):
                         if x.get("k") == "mem" and x.get("o") == "RegistryT":
                             W.add(x["n"])
-            ctx.instance("C09.change-predicate", site, {"function": site, "loc": F.floc(ne[0]), "compared": sorted(compared), "W": sorted(W)})
+            # a saved field that is only ever written together with a compared one cannot be the *only* effect of a request:
+            # compoRemains (how an already requested change is applied) is written by requestImmediate next to compoRequested
+            reach = _reach(F, fid)
+            tied = {}
+            for f in sorted(W - compared):
+                ws = [x for x in E.writers(f) if x in reach]
+                if ws and all(E.direct(x) & compared for x in ws):
+                    tied[f] = sorted(set(F.fdisp(x) for x in ws))
+            W -= set(tied)
+            ctx.instance("C09.change-predicate", site, {"function": site, "loc": F.floc(ne[0]), "compared": sorted(compared), "W": sorted(W),
+                                                        "written_only_together_with_a_compared_field": tied})
             for f in sorted(W - compared):
                 ctx.violation("C09.change-predicate", site + "/" + f, "%s (%s)" % (site, F.floc(ne[0])),
                               "applyRequest may write registry.%s but the change test `registry != backup` does not compare it: such a request is applied "
                               "without being guarded or recorded, and a vetoed round cannot be told from an unchanged one" % f, {"field": f})
+
+
+def _reach(F, fid):
+    seen = set()
+    st = [fid]
+    while st:
+        x = st.pop()
+        if x in seen:
+            continue
+        seen.add(x)
+        b = F.body(x)
+        if b:
+            st.extend(b.get("calls", ()))
+    return seen
 
 
 def check_record(ctx, F):
